@@ -25,6 +25,9 @@ type Finding struct {
 	What       string `json:"what"`
 	Witness    string `json:"witness,omitempty"`
 	Fixed      string `json:"fixed,omitempty"`
+	// Match narrows a finding on an enumerated (bounded) obligation to the recorded failure: when the obligation fails
+	// with an output that does not contain this text, the failure is a different violation and is reported
+	Match string `json:"match,omitempty"`
 }
 
 func loadFindings() []Finding {
@@ -94,6 +97,10 @@ var propDrivers = map[string]*propDriver{
 	}},
 	"C04": {extra: func(w *World, tier string) []VC { return w.versShapeVCs(tier) },
 		notes: []string{"C04's interval semantics is a bounded stand-in (exhaustive enumeration of comparator shapes on the real vers.Contains), never counted as proved; the per-function contracts of the VERS chain that are proved are listed under discharged"}},
+	"C05": {extra: func(w *World, tier string) []VC { return w.shorthandVCs() },
+		notes: []string{"C05 = proved contracts on the direct matching predicates / desugaring functions that the engine reaches (cargo caret and tilde, hex pessimistic, ...) + bounded API obligations per (ecosystem, construct) that run the real NewVersionRange+Contains against the documented interval on a grid of bases and boundary probes; the bounded obligations are stand-ins and never counted as proved"}},
+	"C14": {extra: func(w *World, tier string) []VC { return w.apkBoundedVC() },
+		notes: []string{"the numeric-component rule for equal arity without leading zeros is covered by the bounded API obligation only (its SMT proof is not stable); letters, suffix ranks, additional suffixes and the revision are proved for all values"}},
 	"C08": {extra: func(w *World, tier string) []VC {
 		var vcs []VC
 		for _, eco := range []string{"semver", "npm", "cargo", "hex", "golang", "nuget"} {
@@ -221,9 +228,22 @@ func checkCmd(args []string) int {
 	}
 
 	if *mkBaseline {
+		// obligations seen to discharge only some of the time are never claimed (baseline/unstable.txt, one name per line)
+		unstable := map[string]bool{}
+		if b, err := os.ReadFile(filepath.Join(verifDir, "baseline", "unstable.txt")); err == nil {
+			for _, l := range strings.Split(string(b), "\n") {
+				if l = strings.TrimSpace(l); l != "" && !strings.HasPrefix(l, "#") {
+					unstable[l] = true
+				}
+			}
+		}
 		var lines []string
 		for _, r := range results {
 			if r.vc.ExpectSat {
+				continue
+			}
+			if unstable[r.vc.Name] {
+				fmt.Printf("not claimed (listed unstable): %s\n", r.vc.Name)
 				continue
 			}
 			if r.res.Status == "unsat" && r.res.Seconds > 4.0 && r.vc.Run == nil {
@@ -321,6 +341,9 @@ func checkCmd(args []string) int {
 		}
 		_, inBase := baseline[name]
 		fd := isFinding(name)
+		if fd != nil && fd.Match != "" && r.res.Status != "unsat" && !strings.Contains(r.res.Output, fd.Match) {
+			fd, inBase = nil, true // not the recorded failure
+		}
 		if r.vc.Kind == "frame" && r.res.Status != "unsat" {
 			inBase = true // a write site that violates the frame discipline is decisive even when the site is new
 		}
